@@ -165,80 +165,162 @@ func run(args []string) error {
 
 	var enc, dec, addr, addrb, addre []string
 
-	doEnc := func(b []byte, kind string) {
-		var e string
-		p := Guard(func() { e = base58.Encode(b) })
-		if p {
-			e = "\x00PANIC"
+	// History discipline: every input is presented twice in a row and a third
+	// time at the end of the run (after all the other inputs). The model is a pure
+	// function, so the first observation is written as the case and any later
+	// observation that differs from it is written as a further case (the Coq
+	// side then reports it with the concrete input: "presentation" in the JSON).
+	var later []func()
+	thrice := func(group string, observe func() (string, map[string]interface{}), emit func(term string)) {
+		t1, js := observe()
+		js["presentation"] = 1
+		emit(t1)
+		rec(group, js)
+		again := func(k int) {
+			t, js := observe()
+			o.Evals++
+			if t != t1 {
+				js["presentation"] = k
+				js["first_presentation"] = t1
+				emit(t)
+				rec(group, js)
+				hist.Add(group + ":answer-changed-on-repeat")
+			}
 		}
-		rt, _, _, _ := observeDec(e)
-		enc = append(enc, Tuple(Bytes(b), txt(e), ZBig(rt)))
-		rec("enc", map[string]interface{}{"bytes_hex": hex.EncodeToString(b), "enc": e, "roundtrip_packed": rt.String()})
+		again(2)
+		later = append(later, func() { again(3) })
+	}
+
+	var btc, btcb []string
+	doEnc := func(b []byte, kind string) {
+		thrice("enc", func() (string, map[string]interface{}) {
+			var e string
+			if Guard(func() { e = base58.Encode(b) }) {
+				e = "\x00PANIC"
+			}
+			rt, _, _, _ := observeDec(e)
+			return Tuple(Bytes(b), txt(e), ZBig(rt)), map[string]interface{}{"call": "base58.Encode", "bytes_hex": hex.EncodeToString(b), "enc": e, "roundtrip_packed": rt.String()}
+		}, func(t string) { enc = append(enc, t) })
 		o.Count("enc"+string(b), len(b) > 0)
 		hist.Add("enc:" + kind)
 	}
 	doDec := func(s string, kind string) {
-		pk, b, err, _ := observeDec(s)
-		re := ""
-		if err == nil {
-			Guard(func() { re = base58.Encode(b) })
+		var lastErr error
+		thrice("dec", func() (string, map[string]interface{}) {
+			pk, b, err, _ := observeDec(s)
+			lastErr = err
+			re := ""
+			if err == nil {
+				Guard(func() { re = base58.Encode(b) })
+			}
+			return Tuple(txt(s), ZBig(pk), txt(re)), map[string]interface{}{"call": "base58.Decode", "text_hex": hex.EncodeToString([]byte(s)), "text": s, "packed": pk.String(), "bytes_hex": hex.EncodeToString(b), "err": ErrClass(err, sentinels), "reencoded": re}
+		}, func(t string) { dec = append(dec, t) })
+		o.Count("dec"+s, lastErr == nil || len(s) > 0)
+		hist.Add("dec:" + kind + ":" + okErr(lastErr))
+	}
+	outcome := func(p bool, err error, ok string) string {
+		switch {
+		case p:
+			return "(Err \"panic\")"
+		case err != nil:
+			return "(Err " + Str(ErrClass(err, sentinels)) + ")"
 		}
-		dec = append(dec, Tuple(txt(s), ZBig(pk), txt(re)))
-		rec("dec", map[string]interface{}{"text_hex": hex.EncodeToString([]byte(s)), "text": s, "packed": pk.String(), "bytes_hex": hex.EncodeToString(b), "err": ErrClass(err, sentinels), "reencoded": re})
-		o.Count("dec"+s, err == nil || len(s) > 0)
-		hist.Add("dec:" + kind + ":" + okErr(err))
+		return "(Ok " + ok + ")"
 	}
 	doAddr := func(s string, kind string) {
-		var a cipher.Address
-		var err error
-		p := Guard(func() { a, err = cipher.DecodeBase58Address(s) })
-		obs := ""
-		restr := ""
-		switch {
-		case p:
-			obs = "(Err \"panic\")"
-		case err != nil:
-			obs = "(Err " + Str(ErrClass(err, sentinels)) + ")"
-		default:
-			obs = "(Ok " + addrCoq(a) + ")"
-			Guard(func() { restr = a.String() })
-		}
 		dg := digestOfFirst21(refDecode(s))
-		addr = append(addr, Tuple(txt(s), Bytes(dg), obs, txt(restr)))
-		rec("addr", map[string]interface{}{"text": s, "text_hex": hex.EncodeToString([]byte(s)), "err": ErrClass(err, sentinels), "panic": p, "restr": restr, "kind": kind})
+		first := ""
+		thrice("addr", func() (string, map[string]interface{}) {
+			var a cipher.Address
+			var err error
+			p := Guard(func() { a, err = cipher.DecodeBase58Address(s) })
+			restr := ""
+			if !p && err == nil {
+				Guard(func() { restr = a.String() })
+			}
+			if first == "" {
+				first = ErrClass(err, sentinels)
+			}
+			return Tuple(txt(s), Bytes(dg), outcome(p, err, addrCoq(a)), txt(restr)),
+				map[string]interface{}{"call": "cipher.DecodeBase58Address", "text": s, "text_hex": hex.EncodeToString([]byte(s)), "err": ErrClass(err, sentinels), "panic": p, "restr": restr, "kind": kind}
+		}, func(t string) { addr = append(addr, t) })
 		o.Count("addr"+s, true)
-		hist.Add("addr:" + kind + ":" + ErrClass(err, sentinels))
+		hist.Add("addr:" + kind + ":" + first)
 	}
 	doAddrBytes := func(b []byte, kind string) {
-		var a cipher.Address
-		var err error
-		p := Guard(func() { a, err = cipher.AddressFromBytes(b) })
-		obs := ""
-		switch {
-		case p:
-			obs = "(Err \"panic\")"
-		case err != nil:
-			obs = "(Err " + Str(ErrClass(err, sentinels)) + ")"
-		default:
-			obs = "(Ok " + addrCoq(a) + ")"
-		}
-		addrb = append(addrb, Tuple(Bytes(b), Bytes(digestOfFirst21(b)), obs))
-		rec("addrb", map[string]interface{}{"bytes_hex": hex.EncodeToString(b), "err": ErrClass(err, sentinels), "panic": p, "kind": kind})
+		first := ""
+		thrice("addrb", func() (string, map[string]interface{}) {
+			var a cipher.Address
+			var err error
+			p := Guard(func() { a, err = cipher.AddressFromBytes(b) })
+			if first == "" {
+				first = ErrClass(err, sentinels)
+			}
+			return Tuple(Bytes(b), Bytes(digestOfFirst21(b)), outcome(p, err, addrCoq(a))),
+				map[string]interface{}{"call": "cipher.AddressFromBytes", "bytes_hex": hex.EncodeToString(b), "err": ErrClass(err, sentinels), "panic": p, "kind": kind}
+		}, func(t string) { addrb = append(addrb, t) })
 		o.Count("addrb"+string(b), true)
-		hist.Add("addrb:" + kind + ":" + ErrClass(err, sentinels))
+		hist.Add("addrb:" + kind + ":" + first)
+	}
+	// bitcoin variant: version ‖ key ‖ first 4 bytes of sha256(sha256(version ‖ key))
+	btcCoq := func(a cipher.BitcoinAddress) string {
+		return fmt.Sprintf("{| a_version := %d; a_key := %s |}", a.Version, Bytes(a.Key[:]))
+	}
+	btcDigest := func(b []byte) []byte {
+		if len(b) < 21 {
+			return nil
+		}
+		h := cipher.DoubleSHA256(b[:21])
+		return h[:]
+	}
+	doBtc := func(s string, kind string) {
+		dg := btcDigest(refDecode(s))
+		first := ""
+		thrice("btc", func() (string, map[string]interface{}) {
+			var a cipher.BitcoinAddress
+			var err error
+			p := Guard(func() { a, err = cipher.DecodeBase58BitcoinAddress(s) })
+			restr := ""
+			if !p && err == nil {
+				Guard(func() { restr = a.String() })
+			}
+			if first == "" {
+				first = ErrClass(err, sentinels)
+			}
+			return Tuple(txt(s), Bytes(dg), outcome(p, err, btcCoq(a)), txt(restr)),
+				map[string]interface{}{"call": "cipher.DecodeBase58BitcoinAddress", "text": s, "text_hex": hex.EncodeToString([]byte(s)), "err": ErrClass(err, sentinels), "panic": p, "restr": restr, "kind": kind}
+		}, func(t string) { btc = append(btc, t) })
+		o.Count("btc"+s, true)
+		hist.Add("btc:" + kind + ":" + first)
+	}
+	doBtcBytes := func(b []byte, kind string) {
+		first := ""
+		thrice("btcb", func() (string, map[string]interface{}) {
+			var a cipher.BitcoinAddress
+			var err error
+			p := Guard(func() { a, err = cipher.BitcoinAddressFromBytes(b) })
+			if first == "" {
+				first = ErrClass(err, sentinels)
+			}
+			return Tuple(Bytes(b), Bytes(btcDigest(b)), outcome(p, err, btcCoq(a))),
+				map[string]interface{}{"call": "cipher.BitcoinAddressFromBytes", "bytes_hex": hex.EncodeToString(b), "err": ErrClass(err, sentinels), "panic": p, "kind": kind}
+		}, func(t string) { btcb = append(btcb, t) })
+		o.Count("btcb"+string(b), true)
+		hist.Add("btcb:" + kind + ":" + first)
 	}
 	doAddrEnc := func(a cipher.Address) {
-		var s string
-		var bs []byte
-		p := Guard(func() { s = a.String(); bs = a.Bytes() })
-		if p {
-			s = "\x00PANIC"
-		}
-		pay := append(append([]byte{}, a.Key[:]...), a.Version)
-		h := cipher.SumSHA256(pay)
-		addre = append(addre, Tuple(addrCoq(a), Bytes(h[:]), txt(s), Bytes(bs)))
-		rec("addre", map[string]interface{}{"version": a.Version, "key_hex": hex.EncodeToString(a.Key[:]), "string": s, "bytes_hex": hex.EncodeToString(bs)})
-		o.Count("addre"+s, true)
+		thrice("addre", func() (string, map[string]interface{}) {
+			var s string
+			var bs []byte
+			if Guard(func() { s = a.String(); bs = a.Bytes() }) {
+				s = "\x00PANIC"
+			}
+			pay := append(append([]byte{}, a.Key[:]...), a.Version)
+			h := cipher.SumSHA256(pay)
+			return Tuple(addrCoq(a), Bytes(h[:]), txt(s), Bytes(bs)),
+				map[string]interface{}{"call": "Address.String/Bytes", "version": a.Version, "key_hex": hex.EncodeToString(a.Key[:]), "string": s, "bytes_hex": hex.EncodeToString(bs)}
+		}, func(t string) { addre = append(addre, t) })
+		o.Count(fmt.Sprint("addre", a), true)
 		hist.Add(fmt.Sprintf("addre:version0=%v", a.Version == 0))
 	}
 
@@ -265,6 +347,40 @@ func run(args []string) error {
 		pk, _, _, _ := observeDec(w)
 		decx = append(decx, ZBig(pk))
 		o.Count("decx"+w, true)
+	})
+	// the sweeps are repeated at the end of the run; an answer that changed is
+	// written as an explicit enc / dec case
+	later = append(later, func() {
+		for pass := 2; pass <= 3; pass++ {
+			i := 0
+			wordsUpto(byteSyms, encK, func(w string) {
+				var e string
+				if Guard(func() { e = base58.Encode([]byte(w)) }) {
+					e = "\x00PANIC"
+				}
+				o.Evals++
+				if txt(e) != encx[i] {
+					rt, _, _, _ := observeDec(e)
+					enc = append(enc, Tuple(Bytes([]byte(w)), txt(e), ZBig(rt)))
+					rec("enc", map[string]interface{}{"call": "base58.Encode", "bytes_hex": hex.EncodeToString([]byte(w)), "enc": e, "presentation": pass})
+				}
+				i++
+			})
+			i = 0
+			wordsUpto(decSymbols(), decK, func(w string) {
+				pk, b, err, _ := observeDec(w)
+				o.Evals++
+				if ZBig(pk) != decx[i] {
+					re := ""
+					if err == nil {
+						Guard(func() { re = base58.Encode(b) })
+					}
+					dec = append(dec, Tuple(txt(w), ZBig(pk), txt(re)))
+					rec("dec", map[string]interface{}{"call": "base58.Decode", "text_hex": hex.EncodeToString([]byte(w)), "text": w, "packed": pk.String(), "presentation": pass})
+				}
+				i++
+			})
+		}
 	})
 	hist["encx:exhaustive"] = len(encx)
 	hist["decx:exhaustive"] = len(decx)
@@ -428,6 +544,49 @@ func run(args []string) error {
 	}
 	doAddr("", "empty")
 	doAddrBytes(nil, "empty")
+	// bitcoin addresses (same scheme, version first, double sha256)
+	for i := 0; i < na/2; i++ {
+		var a cipher.BitcoinAddress
+		copy(a.Key[:], r.Bytes(20))
+		if i%4 == 0 {
+			a.Key[0], a.Key[1] = 0, 0
+		}
+		good := make([]byte, 25)
+		Guard(func() { good = a.Bytes() })
+		switch i % 6 {
+		case 0, 1:
+			doBtc(genEnc(good), "valid")
+			doBtcBytes(good, "valid")
+		case 2:
+			b := append([]byte{}, good...)
+			b[21+i%4] ^= 1 << uint(r.Intn(8))
+			doBtc(genEnc(b), "bad-checksum")
+			doBtcBytes(b, "bad-checksum")
+		case 3:
+			a.Version = byte(1 + r.Intn(255))
+			var vb []byte
+			Guard(func() { vb = a.Bytes() })
+			doBtc(genEnc(vb), "bad-version")
+			doBtcBytes(vb, "bad-version")
+		case 4:
+			b := append([]byte{}, good...)
+			if r.Bool() {
+				b = b[:24]
+			} else {
+				b = append(b, 7)
+			}
+			doBtc(genEnc(b), "bad-length")
+			doBtcBytes(b, "bad-length")
+		default:
+			doBtc("1"+genEnc(good), "extra-leading-1")
+			s := genEnc(good)
+			doBtc(s[:len(s)/2]+"l"+s[len(s)/2:], "bad-char")
+		}
+	}
+	// third presentation of every input, after all the others
+	for _, f := range later {
+		f()
+	}
 
 	o.Def("cases_encx", "list Z", encx)
 	o.Def("cases_decx", "Z", decx)
@@ -435,8 +594,10 @@ func run(args []string) error {
 	o.Def("cases_dec", "list Z * Z * list Z", dec)
 	o.Def("cases_addr", "list Z * list Z * outcome address * list Z", addr)
 	o.Def("cases_addrb", "list Z * list Z * outcome address", addrb)
+	o.Def("cases_btc", "list Z * list Z * outcome address * list Z", btc)
+	o.Def("cases_btcb", "list Z * list Z * outcome address", btcb)
 	o.Def("cases_addre", "address * list Z * list Z * list Z", addre)
-	o.Side["rule"] = fmt.Sprintf("exhaustive: every byte string of length <= %d through Encode, every text of <= %d symbols over alphabet+{0,O,I,l,space,0x80,é} through Decode; random byte strings (leading-zero runs, all-zero, all-0xff, 58^k±1, 256^k, up to 300 bytes) and texts (alphabet with leading '1' runs, up to 400 chars, one bad symbol inserted, only '1's); addresses: valid, one-bit checksum/key damage, version != 0 with matching checksum, 22-28 bytes, an extra leading '1', bad character, checksum taken from the digest's tail; a case is non-trivial unless it is the empty input; distinct by input", encK, decK)
+	o.Side["rule"] = fmt.Sprintf("exhaustive: every byte string of length <= %d through Encode, every text of <= %d symbols over alphabet+{0,O,I,l,space,0x80,é} through Decode; random byte strings (leading-zero runs, all-zero, all-0xff, 58^k±1, 256^k, up to 300 bytes) and texts (alphabet with leading '1' runs, up to 400 chars, one bad symbol inserted, only '1's); addresses: valid, one-bit checksum/key damage, version != 0 with matching checksum, 22-28 bytes, an extra leading '1', bad character, checksum taken from the digest's tail; bitcoin addresses likewise; every input is presented twice in a row and once more at the end of the run, an answer that changed is a further case; a case is non-trivial unless it is the empty input; distinct by input", encK, decK)
 	o.Side["distribution"] = hist.Sorted()
 	o.Side["samples"] = samples
 	o.Side["cases"] = caseJSON
